@@ -252,7 +252,11 @@ def run_step(w, api, admin_api, step, pre: Snap, model: Model) -> StepResult:
         elif how == "api":
             ok = r.status == 200 and isinstance(js, dict) and js.get("deleted") == spk
         else:
-            ok = _redirects_to(r, "/streams")
+            # the form answers success and refusal (e.g. stream used by a multi-period stream) with the same
+            # redirect and only a flash message tells them apart: the disappearance of the Stream row is the
+            # success signal, everything else the stream owns is then judged
+            ok = _redirects_to(r, "/streams") and spk in pre.streams and \
+                w.one("select pk from Stream where pk=?", (spk,)) is None
         own = pre.own_stream(spk) if ok else set()
         if ok:
             D["stream"].append(spk)
@@ -271,7 +275,7 @@ def run_step(w, api, admin_api, step, pre: Snap, model: Model) -> StepResult:
         _, sref, kind, ni, ajax = step
         spk = pick(sref, streams, D["stream"])
         fname = UPLOAD_NAMES[ni % len(UPLOAD_NAMES)]
-        stem = fname.rsplit(".", 1)[0]
+        stem = fname.rsplit(".", 1)[0].lower()      # media files are stored and served under the lower-case name
         body = mgmt.upload_body(kind)
         r = api.upload_file(spk, fname, body, ajax=bool(ajax))
         js = _json(r)
